@@ -61,7 +61,13 @@ fn frame_strategy(tier: Tier) -> BoxedStrategy<(RFrame, Vec<bool>)> {
         4 => (u32_edge(), u32_edge(), u32_edge()).prop_map(move |(a, b, c)| nobits(RFrame::Cancel(a, b, c))),
         4 => (u32_edge(), u32_edge(), block(tier)).prop_map(move |(a, b, d)| nobits(RFrame::Piece(a, b, d))),
         3 => (arr20(), arr20()).prop_map(move |(h, p)| nobits(RFrame::handshake(h, p))),
-        4 => prop_oneof![vec(any::<bool>(), 0..70), vec(any::<bool>(), 0..2000), vec(prop::bool::weighted(0.05), 0..200)]
+        4 => prop_oneof![
+            40 => vec(any::<bool>(), 0..70),
+            40 => vec(any::<bool>(), 0..2000),
+            20 => vec(prop::bool::weighted(0.05), 0..200),
+            // frame-size and power-of-two neighbourhoods of the piece count (a bitfield of 524280 pieces still fits one frame)
+            1 => prop::sample::select(vec![65528usize, 65535, 65536, 65537, 65544, 100_000, 262_144, 524_279, 524_280]).prop_flat_map(|n| vec(prop::bool::weighted(0.5), n..=n)),
+        ]
             .prop_map(|bits| (RFrame::Bitfield(wire::bits_to_bytes(&bits)), bits)),
     ]
     .boxed()
